@@ -192,8 +192,10 @@ def r_var(args):
 
 
 _VALUE_LEXEMES = {
-    'QUOTE_STRING': ["'01 day'", "'1 day'", "'007'", "''", "' x '", "'it''s'", "'%'", "'NULL'", "'1e5'", "'-1'", "'x.y'", "'a\"b'", "'2 hours'", "'00'", "'1.50'", "'A'"],
-    'DQUOTE_STRING': ['"01 day"', '"a b"', '"x.y"', '"it\'s"', '"007"', '"A"', '"select"', '"1"'],
+    'QUOTE_STRING': ["'01 day'", "'1 day'", "'007'", "''", "' x '", "'it''s'", "'%'", "'NULL'", "'1e5'", "'-1'", "'x.y'", "'a\"b'", "'2 hours'", "'00'", "'1.50'", "'A'",
+                     # back-slashes next to quotes: an escaped back-slash pair before a doubled / escaped quote, an escaped quote, a pair at the end
+                     "'a\\\\''b'", "'a\\\\\\'b'", "'a\\'b'", "'a\\\\'", "'\\\\''", "'a\\nb'"],
+    'DQUOTE_STRING': ['"01 day"', '"a b"', '"x.y"', '"it\'s"', '"007"', '"A"', '"select"', '"1"', '"a\\\\\'b"', '"a\\\\""b"'],
     'INTEGER': ['0', '007', '10', '99999999999999999999', '1', '00'],
     'FLOAT': ['0.0', '1.5', '.5', '1.', '0.00005', '00.10', '123456789.125', '1.0'],
     'ID': ['a1', '`a b`', '`select`', 'x$y', '$a', '_', 'A1', '`1x`', '`a.b`', 'Id', '`ID`', 'a_b'],
